@@ -7,7 +7,7 @@ EXPLANATION = ('C02: Pupil/Image x Wavefront -> propagate_dft -> Wavefront.field
                'per-axis input and output pixel scales; concrete array shapes, supports, windows, masks, oversampling.')
 BOUNDS = {
     'quick': 'plane arrays 1..3 per axis incl. non-square; supports = sampled non-empty subsets, whole or split into 2..3 segment masks (several input fields); output shape 1..3, prop_shape <= shape, '
-             'oversample 1..2, output mask none / rectangle / sparse; scalar or per-axis scales; both directions; 260 sampled + fixed configs',
+             'oversample 1..2, output mask none / rectangle / sparse; scalar or per-axis scales; both directions; 900 sampled + fixed configs',
     'thorough': 'plane arrays 1..4; output 1..4; oversample 1..3; 2500 sampled + fixed configs',
 }
 ASSUMPTIONS = ['wavelength, focal length, pixel scales > 0; amplitude and OPD arbitrary reals',
@@ -48,7 +48,7 @@ def configs(tier, seed):
     rng = random.Random(1000 + seed)
     top = 3 if tier == 'quick' else 4
     osmax = 2 if tier == 'quick' else 3
-    want = 260 if tier == 'quick' else 2500
+    want = 900 if tier == 'quick' else 2500
     pool = []
     for nr, nc in itertools.product(range(1, top + 1), repeat=2):
         for sup in _supports(nr, nc, rng, 3):
